@@ -36,7 +36,8 @@ class OPPSerialCommunicator(BaseSerialCommunicator):
         msg.extend(OppRs232Intf.EOM_CMD)
         self.send(bytes(msg))
 
-        resp = await self.read(8)
+        # the 8 byte response may arrive in several pieces and read() returns whatever is there
+        resp = await self.reader.readexactly(8)
         if resp[7] != ord(OppRs232Intf.EOM_CMD):
             raise AssertionError("Failed to read ID from {}. Missing EOM.".format(self.port))
 
